@@ -81,14 +81,14 @@ func c17Observe(h *olareg.Server, l *legacyLayout) (string, string) {
 	for _, tg := range sortedKeys(l.tags) {
 		r := doReq(h, "GET", "/v2/"+rn+"/manifests/"+tg, nil, hdr("Accept", acceptAll))
 		if r.code != 200 || r.hdr.Get("Docker-Content-Digest") != l.tags[tg] || !sameBytes(r.body, l.blobs[l.tags[tg]]) {
-			bad("tag %s: status %d digest %s, layout has %s", tg, r.code, short(r.hdr.Get("Docker-Content-Digest")), short(l.tags[tg]))
+			bad("tag %s: status %d digest %s body %q, layout has %s", tg, r.code, short(r.hdr.Get("Docker-Content-Digest")), trunc(r.body, 200), short(l.tags[tg]))
 		}
 		fmt.Fprintf(&sb, "tag %s %d\n", tg, r.code)
 	}
 	for _, d := range sortedKeys(l.manifests) {
 		r := doReq(h, "GET", "/v2/"+rn+"/manifests/"+d, nil, hdr("Accept", acceptAll))
 		if r.code != 200 || !sameBytes(r.body, l.blobs[d]) {
-			bad("manifest %s (%s): status %d", short(d), l.manifests[d], r.code)
+			bad("manifest %s (%s): status %d body %q", short(d), l.manifests[d], r.code, trunc(r.body, 200))
 		}
 		fmt.Fprintf(&sb, "man %s %d\n", short(d), r.code)
 	}
